@@ -25,7 +25,7 @@ def features_for(prop, base=None):
     F = set(progen.ALL_FEATURES if base is None else base)
     off = set()
     for f in common.load_ledger():
-        if f["status"] == "open":
+        if f["status"] == "open" and (not f.get("gate_for") or prop in f["gate_for"]):
             for g in f.get("gates", []):
                 off.add(g)
     return F - off, sorted(off & set(progen.ALL_FEATURES if base is None else base))
